@@ -2879,10 +2879,10 @@ def mpf2multiword(dtype, x, p=None, max_length=None):
         bl1 = man1.bit_length()
         d = mask.bit_length() - bl1
         assert d >= 0
-        if d > 0 and offset >= d:
+        if d > 0 and offset > 0:
             # skip heading bytes that are zero for optimal compression
             # of bit data. In some cases, this reduces result length.
-            offset -= d
+            offset -= min(d, offset)
             man1 = (man & (mask << offset)) >> offset
             bl1 = man1.bit_length()
         exp1 = exp + offset
